@@ -4,7 +4,7 @@
    coq/gen/Check_PrepareSteps.v, compiled on every run of the check after the translator. *)
 From Verif Require Import Base.Prelude Base.StrOrd Base.Graph Model.MapSpec Model.MapSpecSpec
   Model.PrepareSteps Model.Validate Model.ValidateSpec.
-From Verif Require Import Proofs.PrepareFacts Proofs.ValidateFacts.
+From Verif Require Import Corr.Run_C12 Proofs.PrepareFacts Proofs.ValidateFacts Proofs.ValidateDecide.
 
 (* ---------- construction ---------- *)
 (* what construction accepts is free of every construction-time fault class of the property *)
@@ -68,6 +68,26 @@ Theorem C12_accepted_after_all_checks : forall user_calls q tr calls,
   map_model user_calls q = (Ok tt, tr, calls) -> validate_map q = Ok tt /\ calls = user_calls q.
 Proof. exact accepted_after_all_checks. Qed.
 Print Assumptions C12_accepted_after_all_checks.
+
+(* ---------- the model satisfies the executable statement used on the implementation's observations ---------- *)
+(* (`spec_ok` decides the fault classes with the boolean deciders wfc_b / wfm_b of Model/ValidateSpec.v; they accept
+   everything that is free of the declarative fault classes, so a request they call faulty is rejected by the
+   model, with no call and - for cleanup=False - no effect.  Cases carry claimed_valid = false: the acceptance of
+   the generator's own valid cases is an empirical anchor, not a theorem.) *)
+Theorem C12_model_meets_spec_construct : forall fs,
+  (forall h, In h fs -> routs h <> []) -> spec_ok (CConstruct fs false) (run (CConstruct fs false)) = true.
+Proof. exact model_meets_spec_construct. Qed.
+Print Assumptions C12_model_meets_spec_construct.
+
+Theorem C12_model_meets_spec_map : forall q,
+  plain_specs (q_funcs q) -> spec_ok (CMap q false) (run (CMap q false)) = true.
+Proof. exact model_meets_spec_map. Qed.
+Print Assumptions C12_model_meets_spec_map.
+
+Theorem C12_model_meets_spec_order : forall cleanup,
+  spec_ok (CPrepOrder cleanup) (run (CPrepOrder cleanup)) = true.
+Proof. exact model_meets_spec_order. Qed.
+Print Assumptions C12_model_meets_spec_order.
 
 (* ---------- non-vacuity ---------- *)
 Module Ex.
